@@ -474,16 +474,22 @@ func checkCase(c Case) error {
 // its cancel request.
 
 type ConcCase struct {
-	Places []string `json:"places"` // one goroutine per entry: A1 | A2 | B
+	Places []string `json:"places"` // one goroutine per entry: A1 | A2 | B | C | D
 	Rounds int      `json:"rounds"`
 	Emits  int      `json:"emits"`
+	// Stay is how long (µs) each goroutine stays subscribed in a round; Gap is
+	// the pause (µs) of the emitter between two events.
+	Stay []int `json:"stay,omitempty"`
+	Gap  int   `json:"gap,omitempty"`
 }
 
 func genConc(t *rapid.T) ConcCase {
-	n := rapid.IntRange(2, 4).Draw(t, "subscribers")
-	c := ConcCase{Rounds: rapid.IntRange(1, 5).Draw(t, "rounds"), Emits: rapid.IntRange(20, 150).Draw(t, "emits")}
+	n := rapid.IntRange(2, 7).Draw(t, "subscribers")
+	c := ConcCase{Rounds: rapid.IntRange(1, 8).Draw(t, "rounds"), Emits: rapid.IntRange(20, 400).Draw(t, "emits")}
+	c.Gap = rapid.SampledFrom([]int{0, 0, 5, 30}).Draw(t, "gap")
 	for i := 0; i < n; i++ {
-		c.Places = append(c.Places, rapid.SampledFrom([]string{"A1", "A1", "A2", "B"}).Draw(t, "place"))
+		c.Places = append(c.Places, rapid.SampledFrom([]string{"A1", "A1", "A2", "B", "C", "D"}).Draw(t, "place"))
+		c.Stay = append(c.Stay, rapid.SampledFrom([]int{0, 20, 50, 100, 200, 400}).Draw(t, "stay"))
 	}
 	return c
 }
@@ -515,6 +521,16 @@ func checkConc(c ConcCase) error {
 		return vt.Violationf("C13:setup", "session: %v", err)
 	}
 	defer sessB.Terminate()
+	sessC, err := session.NewAuthSession(env.Addr, "u", "t")
+	if err != nil {
+		return vt.Violationf("C13:setup", "session: %v", err)
+	}
+	defer sessC.Terminate()
+	sessD, err := session.NewAuthSession(env.Addr, "u", "t")
+	if err != nil {
+		return vt.Violationf("C13:setup", "session: %v", err)
+	}
+	defer sessD.Terminate()
 	mk := func(s bus.Session) space.BombProxy {
 		p, err := s.Proxy("Bomb", 1)
 		if err != nil {
@@ -522,7 +538,7 @@ func checkConc(c ConcCase) error {
 		}
 		return space.MakeBomb(s, p)
 	}
-	proxies := map[string]space.BombProxy{"A1": mk(sessA), "A2": mk(sessA), "B": mk(sessB)}
+	proxies := map[string]space.BombProxy{"A1": mk(sessA), "A2": mk(sessA), "B": mk(sessB), "C": mk(sessC), "D": mk(sessD)}
 	for k, p := range proxies {
 		if p == nil {
 			return vt.Violationf("C13:setup", "proxy %s", k)
@@ -577,7 +593,11 @@ func checkConc(c ConcCase) error {
 					close(done)
 				}()
 				// stay subscribed for a few emits
-				time.Sleep(time.Duration(200+gi*70+r*50) * time.Microsecond)
+				stay := 200 + gi*70
+				if gi < len(c.Stay) {
+					stay = c.Stay[gi]
+				}
+				time.Sleep(time.Duration(stay+r*10) * time.Microsecond)
 				// Only events emitted before this point are required (an event still
 				// in flight when cancel is requested may be dropped). A barrier call on
 				// this connection puts them in the subscriber's pipeline; the harness
@@ -645,7 +665,13 @@ func checkConc(c ConcCase) error {
 			emu.Lock()
 			emitted = append(emitted, e)
 			emu.Unlock()
-			time.Sleep(30 * time.Microsecond)
+			if c.Gap > 0 || c.Stay == nil {
+				gap := c.Gap
+				if c.Stay == nil {
+					gap = 30
+				}
+				time.Sleep(time.Duration(gap) * time.Microsecond)
+			}
 		}
 	}()
 	wg.Wait()
